@@ -21,8 +21,8 @@ func newProcGen(r *gen.Rng) *procGen { return &procGen{r: r} }
 // boundary strings for the string->number coercion ("decimal parse or 0"): canonical decimals, signs,
 // blanks, and spellings that other parsers accept but a decimal parse must not (leading zeros are
 // decimal, not octal; no base prefixes, digit separators, exponents, fractions)
-var procStrs = []string{"", "0", "7", "12", "abc", "+3", " 4", "a", "b", "true", "-2", "010", "-012", "0x1F", "1_000", "0b11", "1e3", "3.5", "7 ", "+", "99999999999999999999", "9223372036854775807", "-9223372036854775808"}
-var procNums = []int{0, 1, 2, -1, 7, 12, 9223372036854775807, -9223372036854775807}
+var procStrs = []string{"", "0", "7", "12", "abc", "+3", " 4", "a", "b", "true", "-2", "010", "-012", "0x1F", "1_000", "0b11", "1e3", "3.5", "7 ", "+", "99999999999999999999", "9223372036854775807", "-9223372036854775808", "07", "00", "-0", "+0", "+7", "0012", " 12", "-01"}
+var procNums = []int{0, 1, 2, -1, 7, 12, 9223372036854775807, -9223372036854775807, 3, 4, 10, -2, -12}
 var binOps = []string{"+", "-", "*", "/", "%", "<", ">", "<=", ">=", "==", "!=", "and", "or"}
 var unOps = []string{"not", "head", "tail"}
 
